@@ -4,7 +4,7 @@ import json, glob, collections
 p = "/verif/DESIGN.md"
 s = open(p).read()
 i = s.index("### 11.6 Seeded changes")
-j = s.index("## 12. Layout and budget")
+j = s.index("### 11.7 ") if "### 11.7 " in s else s.index("## 12. Layout and budget")
 def key(d):
     n = d.split("/")[-1]
     return (int(n.split("-r")[1]) if "-r" in n else 1, n)
@@ -25,7 +25,8 @@ head = f"""### 11.6 Seeded changes: which check catches which, and what had to b
 alone plus a hint at an area (`tools/seed_prompts.py`, `tools/seed_hints_r*.json`; from round
 2 on the authors were also told what the earlier changes for that property were, so as to
 pick a different mechanism; round 4 steered them towards path-, order- and history-dependent
-faults, round 5 towards files no earlier change had touched). All {n} compile, pass the
+faults, round 5 towards files no earlier change had touched, round 6 towards
+three-feature interactions, rare kinds and secondary boundaries). All {n} compile, pass the
 pinned suite, and are detected by the quick tier of a check on every run:
 `tools/mutation_audit.sh` (scratch worktrees only, nothing is applied to `/repo`, evidence of
 the real tree is not touched; `vp run -- sh -c 'tools/mutation_audit.sh -j 2'` runs it from a
